@@ -14,9 +14,9 @@
 From Typ Require Import SyncMap.Model SyncMap.Inv SyncMap.SetAtomic Lib.Lin SyncMap.Linearizable SyncMap.RangeConc.
 
 (* (1) Range calls its function at most once per key. *)
-Theorem C04_range_once : forall progs sched t th i out cnt,
+Theorem C04_range_once : forall z progs sched t th i out cnt,
   Forall (Forall rfrag) progs ->
-  let c := run_schedule (init_config 1 progs) sched in
+  let c := run_schedule (init_config_z [z] progs) sched in
   nth_error (c_threads c) t = Some th -> nth_error (t_results th) i = Some (RRange out cnt) ->
   List.NoDup (map fst out).
 Proof. exact range_once. Qed.
@@ -24,26 +24,42 @@ Print Assumptions C04_range_once.
 
 (* (2) ... only with a value that key held at some configuration strictly
    inside the Range call. *)
-Theorem C04_range_values : forall progs sched t th i out cnt,
+Theorem C04_range_values : forall z progs sched t th i out cnt,
   Forall (Forall rfrag) progs ->
-  let c := run_schedule (init_config 1 progs) sched in
+  let c := run_schedule (init_config_z [z] progs) sched in
   nth_error (c_threads c) t = Some th -> nth_error (t_results th) i = Some (RRange out cnt) ->
   forall k v, In (k, v) out ->
-  exists cj, In cj (run_trace (init_config 1 progs) sched) /\ in_call cj t i /\ abs_lookup (st0 cj) k = Some v.
+  exists cj, In cj (run_trace (init_config_z [z] progs) sched) /\ in_call cj t i /\ abs_lookup (st0 cj) k = Some v.
 Proof. exact range_values. Qed.
 Print Assumptions C04_range_values.
 
 (* (3) ... and visits every key that was present with one value, untouched,
-   for the whole call - unless the callback stopped the iteration. *)
-Theorem C04_range_complete : forall progs sched t th i out cnt,
+   for the whole call - unless THIS call's own callback stopped the iteration:
+   the call in question (the i-th call of thread t's program p) is a Range
+   whose callback stops after n entries, and it did report n entries. Other
+   Range calls of the program, stopping or not, do not weaken the claim. *)
+Theorem C04_range_complete : forall z progs sched t th i out cnt,
   Forall (Forall rfrag) progs ->
-  let c := run_schedule (init_config 1 progs) sched in
+  let c := run_schedule (init_config_z [z] progs) sched in
   nth_error (c_threads c) t = Some th -> nth_error (t_results th) i = Some (RRange out cnt) ->
   forall k v,
-    (forall x, In x (steps_from (init_config 1 progs) sched) -> in_call_at x t i -> abs_lookup (st0 x.1) k = Some v) ->
-    In (k, v) out \/ exists n, In (CRange 0 (CbStop (Some n))) (concat progs) /\ (Z.of_nat n <= cnt)%Z.
+    (forall x, In x (steps_from (init_config_z [z] progs) sched) -> in_call_at x t i -> abs_lookup (st0 x.1) k = Some v) ->
+    In (k, v) out \/
+    exists p n, nth_error progs t = Some p /\ nth_error p i = Some (CRange 0 (CbStop (Some n))) /\ (Z.of_nat n <= cnt)%Z.
 Proof. exact range_complete. Qed.
 Print Assumptions C04_range_complete.
+
+(* hence for a Range whose own callback never stops the clause has no escape *)
+Theorem C04_range_complete_nonstop : forall z progs sched t th i out cnt p,
+  Forall (Forall rfrag) progs ->
+  nth_error progs t = Some p -> nth_error p i = Some (CRange 0 (CbStop None)) ->
+  let c := run_schedule (init_config_z [z] progs) sched in
+  nth_error (c_threads c) t = Some th -> nth_error (t_results th) i = Some (RRange out cnt) ->
+  forall k v,
+    (forall x, In x (steps_from (init_config_z [z] progs) sched) -> in_call_at x t i -> abs_lookup (st0 x.1) k = Some v) ->
+    In (k, v) out.
+Proof. exact range_complete_nonstop. Qed.
+Print Assumptions C04_range_complete_nonstop.
 
 (* Non-vacuity: G0 ranges while G1 stores. Key 1 is in the map for the whole
    Range and is reported; key 2 is stored during the Range (after Range took
@@ -58,3 +74,20 @@ Example C04range_example :
   map t_results (c_threads c) = [[RRange [(1, 10)] 1]; [RUnit; ROpt None; RUnit]]%Z /\
   abs_lookup (st0 c) 2%Z = Some 20%Z /\ finished c = true /\ Forall (Forall rfrag) rng_progs.
 Proof. vm_compute. repeat split; repeat constructor. Qed.
+
+(* Non-vacuity of (3) for programs that mix stopping and non-stopping Ranges:
+   G0 stores keys 1 and 2, then ranges with a callback that stops after one
+   entry (reports key 2 only, 1 <= cnt: the escape of THIS call), then ranges
+   with a callback that never stops: both keys are reported, although the
+   program (G0's third call, G1's call) contains stopping Ranges. *)
+Definition rng2_progs : list (list call) :=
+  [[CStore 0 1%Z 10%Z; CStore 0 2%Z 20%Z; CRange 0 (CbStop (Some 1)); CRange 0 (CbStop None)]; [CRange 0 (CbStop (Some 0))]].
+Definition rng2_sched : list (nat * Z) := concat (repeat [(0, 1%Z); (0, 2%Z)] 40) ++ repeat (1, 1%Z) 10.
+
+Example C04range_example_mixed :
+  let c := run_schedule (init_config 1 rng2_progs) rng2_sched in
+  map t_results (c_threads c) =
+    [[RUnit; RUnit; RRange [(2, 20)] 1; RRange [(1, 10); (2, 20)] 2]; [RRange [(1, 10)] 1]]%Z /\
+  finished c = true /\ Forall (Forall rfrag) rng2_progs /\
+  (exists p, nth_error rng2_progs 0 = Some p /\ nth_error p 3 = Some (CRange 0 (CbStop None))).
+Proof. vm_compute. repeat split; repeat constructor. eexists; split; reflexivity. Qed.
